@@ -12,7 +12,7 @@ class C06(C05):
                  'bounded-exhaustive enumeration of body trees; metamorphic: minimal vs full parenthesisation')
     rule = ('(a) random body trees up to 7 leaves over calls, =, \\=, true, fail, !, ",", ";", "->", (->;), \\+ nested '
             'arbitrarily, printed either with the minimal parentheses implied by "," < "->" < ";" (right-associative) '
-            'or fully parenthesised - both must behave like the tree; (b) ALL bodies with <= 3 leaves (thorough <= 4) '
+            'or fully parenthesised - both must behave like the tree; (b) bounded-exhaustive bodies (<= 2 leaves and a quarter of the 3-leaf ones; thorough: all <= 3 leaves and all 4-leaf ones without negation) '
             'containing ";", "->" or \\+. Answers compared with reference R. Non-trivial = the reference run took an '
             'if-then-else/\\+ decision or a disjunction, and the program has >= 2 answers or nesting of two control '
             'constructs; distinct = SHA-1 of program text + queries.')
